@@ -49,6 +49,41 @@ def atoms_of_cond(f, R, i, truth, out):
             atoms_of_cond(f, R, n['ch'][0], False, out)
             atoms_of_cond(f, R, n['ch'][1], False, out)
         return
+    # the result of a reason-returning checker tested against null: a null result means none of its conditions held
+    try:
+        import validators as _V
+        rc = None
+        isnull = None
+        if k == 'BinaryOperator' and n['op'] in ('==', '!='):
+            for a_, b_ in ((n['ch'][0], n['ch'][1]), (n['ch'][1], n['ch'][0])):
+                bn = f.nodes[f.strip(b_, 'all')]
+                if bn['k'] in ('CXXNullPtrLiteralExpr', 'GNUNullExpr') or str(bn.get('cv')) == '0':
+                    rc = _V.reason_call(f.prog, f, a_)
+                    if rc:
+                        isnull = (n['op'] == '==') == truth
+                        break
+        elif k in ('DeclRefExpr', 'CallExpr', 'CXXMemberCallExpr'):
+            rc = _V.reason_call(f.prog, f, i)
+            if rc:
+                isnull = not truth
+        if rc and isnull:
+            from codec import substitute
+            cn, cf, gs = rc
+            Rc = Renderer(cf)
+            sub = {'arg%d' % j: R.render(a_) for j, a_ in enumerate(f.call_args(cn))}
+            if f.call_obj(cn) is not None:
+                sub['this'] = R.render(f.call_obj(cn))
+            sub = {k_: re.sub(r'^\*\((.*)\)$', r'\1', v_) for k_, v_ in sub.items()}
+            for gc in gs:
+                tmp = []
+                atoms_of_cond(cf, Rc, gc, False, tmp)
+                for l_, op_, r_, _n in tmp:
+                    out.append((uncast(substitute(l_, sub)), op_, uncast(substitute(r_, sub)), n['id']))
+            return
+        if rc:
+            return
+    except ImportError:
+        pass
     if k == 'BinaryOperator' and n['op'] in ('<', '<=', '>', '>=', '==', '!='):
         op = n['op']
         if not truth:
@@ -214,6 +249,9 @@ def collect(prog, funcs):
             elif k == 'CXXMemberCallExpr' and n['callee'].get('classq') in ('std::vector', 'std::basic_string', 'std::array') and n['callee']['name'] in ('front', 'back', 'pop_back'):
                 sites.append(Site(f, n['id'], n['callee']['name'], n['obj'], None))
             elif k == 'UnaryOperator' and n['op'] == '*' and f.nodes[f.strip(n['ch'][0], 'all')]['k'] != 'CXXThisExpr':
+                b_ = f.nodes[f.strip(n['ch'][0], 'all')]
+                if b_['k'] == 'DeclRefExpr' and str(b_['decl'].get('name', '')).startswith(('__begin', '__range', '__end')):
+                    continue   # the hidden iterator of a range-for: dereferenced only between begin and end
                 sites.append(Site(f, n['id'], 'deref', n['ch'][0], None))
     return sites
 
